@@ -3069,6 +3069,21 @@ where
                 attempt,
                 &tds_snapshot,
             );
+            // Failpoints: the attempt mutated the Tds and is then reported as failed, once with a
+            // non-retryable and once with a retryable error.
+            #[cfg(delaunay_verif)]
+            let result = if result.is_ok() && crate::core::util::verif_failpoints::hit("tri.insert.fail_nonretryable") {
+                Err(InsertionError::CavityFilling {
+                    message: "verif failpoint: tri.insert.fail_nonretryable".to_string(),
+                })
+            } else if result.is_ok() && crate::core::util::verif_failpoints::hit("tri.insert.fail_retryable") {
+                Err(InsertionError::NonManifoldTopology {
+                    facet_hash: 0,
+                    cell_count: 3,
+                })
+            } else {
+                result
+            };
 
             match result {
                 Ok((result, cells_removed, _suspicion)) => {
@@ -4880,6 +4895,14 @@ where
                     ),
                 })?;
 
+            #[cfg(delaunay_verif)]
+            if crate::core::util::verif_failpoints::hit("tri.remove.after_fill") {
+                return Err(TdsValidationError::InconsistentDataStructure {
+                    message: "verif failpoint: tri.remove.after_fill".to_string(),
+                }
+                .into());
+            }
+
             // Wire neighbors for the new cells (while both old and new cells exist)
             let external_facets =
                 external_facets_for_boundary(&self.tds, &cells_to_remove, &boundary_facets)
@@ -4900,6 +4923,13 @@ where
             // Note: remove_cells_by_keys() automatically clears neighbor pointers in surviving
             // cells that reference removed cells (sets them to None/boundary)
             let mut cells_removed = self.tds.remove_cells_by_keys(&cells_to_remove);
+            #[cfg(delaunay_verif)]
+            if crate::core::util::verif_failpoints::hit("tri.remove.after_remove_cells") {
+                return Err(TdsValidationError::InconsistentDataStructure {
+                    message: "verif failpoint: tri.remove.after_remove_cells".to_string(),
+                }
+                .into());
+            }
 
             // Validate facet topology for newly created cells (O(k*D) localized check)
             if let Some(issues) = self.detect_local_facet_issues(&new_cells)? {
@@ -4948,6 +4978,13 @@ where
 
             // Remove the vertex using Tds method (handles internal bookkeeping)
             self.tds.remove_vertex(vertex)?;
+            #[cfg(delaunay_verif)]
+            if crate::core::util::verif_failpoints::hit("tri.remove.after_remove_vertex") {
+                return Err(TdsValidationError::InconsistentDataStructure {
+                    message: "verif failpoint: tri.remove.after_remove_vertex".to_string(),
+                }
+                .into());
+            }
 
             // Deleting the star of a hull vertex can strand neighbouring vertices, pinch or
             // disconnect the complex: the cavity fill only covers facets that have a surviving
